@@ -30,8 +30,9 @@ if history >= 1:
         _f = ufl.Coefficient(V) * ufl.TestFunction(V) * ufl.dx
 if history >= 2:
     # other modules compiled earlier in the same process, then the same module once before
-    compile_one("demo/Poisson1D.py", {})
+    compile_one("corpus/history_warmup.py", {})
     compile_one("corpus/tp_sumfact.py", {"sum_factorization": True})
+    compile_one("corpus/expressions.py", {})
     compile_one(rel, opts)
 code = compile_one(rel, opts)
 print(json.dumps([hashlib.sha1(c.encode()).hexdigest() for c in code] + ["\n".join(code)]))
